@@ -3,6 +3,7 @@ mod codec;
 mod common;
 mod driver;
 mod e1;
+mod e2;
 mod e3;
 mod engine;
 mod hostile;
@@ -17,7 +18,7 @@ use driver::{CheckPlan, ReplayFile};
 use engine::Engine;
 
 fn engines() -> Vec<Arc<dyn Engine>> {
-    vec![Arc::new(e1::engine::E1), Arc::new(e3::budget::Budget)]
+    vec![Arc::new(e1::engine::E1), Arc::new(e3::budget::Budget), Arc::new(e2::E2)]
 }
 
 fn env_u64(k: &str) -> Option<u64> {
@@ -40,6 +41,10 @@ fn plan_for(prop: &str, tier: &str) -> Vec<(Arc<dyn Engine>, u64)> {
             }
         }
     };
+    if prop == "C19" || prop == "C17" {
+        let n = if thorough { 300_000 } else { 8_000 };
+        v.push((Arc::new(e2::E2), (n * scale / 100).max(1)));
+    }
     if prop == "C07" {
         let n = if thorough { 600_000 } else { 20_000 };
         v.push((Arc::new(e3::budget::Budget), (n * scale / 100).max(1)));
@@ -79,6 +84,16 @@ fn main() {
         Some("replay") => {
             let Some(path) = args.get(2) else { std::process::exit(usage()) };
             driver::cmd_replay(&engines(), path, args.iter().any(|a| a == "-v"))
+        }
+        Some("mkreplay") => {
+            // mkreplay <prop> <engine> <run_index> <out> [known]
+            let prop = args.get(2).cloned().unwrap_or_default();
+            let ename = args.get(3).cloned().unwrap_or_default();
+            let idx: u64 = args.get(4).and_then(|s| s.parse().ok()).unwrap_or(0);
+            let out = args.get(5).cloned().unwrap_or("/tmp/out.replay.json".into());
+            let known = args.get(6).map(|s| s == "known").unwrap_or(false);
+            let Some(eng) = engines().into_iter().find(|e| e.name() == ename) else { std::process::exit(usage()) };
+            driver::cmd_mkreplay(&eng, &prop, env_u64("VERIF_SEED").unwrap_or(1), idx, &out, known)
         }
         Some("selftest") => {
             let n = args.get(2).and_then(|s| s.parse().ok()).unwrap_or(200u64);
@@ -182,6 +197,36 @@ fn explore(prop: &str, start: u64, count: u64) -> i32 {
 fn selftest(n: u64, child: Option<&str>) -> i32 {
     if child == Some("child") {
         let mut acc = Vec::new();
+        // generation and replay of the same run must agree (same trace hash)
+        for prop in ["C17", "C01", "C12"] {
+            for i in 0..(n / 4).max(5) {
+                let seed = rng::mix(prop_seed(prop), 1_000_000 + i);
+                let p = prop.to_string();
+                let rec = engine::on_fresh_thread(seed, move || e1::engine::E1.generate(seed, &p));
+                let rf = ReplayFile {
+                    format: 1,
+                    engine: "E1".into(),
+                    property: prop.to_string(),
+                    profile: rec.profile.clone(),
+                    seed,
+                    run_index: i,
+                    thread_seed: seed,
+                    expect: "pass".into(),
+                    config: rec.cfg.clone(),
+                    commands: rec.cmds.clone(),
+                    violation: None,
+                    trace: String::new(),
+                    original_commands: 0,
+                    note: String::new(),
+                };
+                let (o, _) = driver::run_replay(&e1::engine::E1, &rf, false);
+                if o.trace != rec.outcome.trace {
+                    println!("GEN/REPLAY MISMATCH {prop} {i}: {:016x} vs {:016x}", rec.outcome.trace, o.trace);
+                    return 3;
+                }
+                acc.push(format!("replay {prop} {i} {:016x}", o.trace));
+            }
+        }
         for prop in ["C02", "C09", "C12", "C16", "C17"] {
             for i in 0..n {
                 let seed = rng::mix(prop_seed(prop), i);
